@@ -21,6 +21,8 @@ func checkC32(c *Ctx, r *Report) {
 	r.rule("C32.R1", "200 only after the broker's reply was decoded and every partition acknowledged with code 0", 6)
 	r.rule("C32.R2", "200 only after the S3 write succeeded and the declared checksum matched; envelope fields come from the uploader / session hashers; the reply body is that envelope", 8)
 	r.rule("C32.R3", "multipart completion uses the server-side part list under a cardinality check, after all declared bytes arrived", 3)
+	r.rule("C32.R4", "the S3 uploader reports a write as successful only when the S3 call that finishes it succeeded", 5)
+	checkUploaderErrors(m, r)
 
 	fwd := lfsMod + "forwardToBackend"
 	ack := pkgProxy + ".lfsProduceAckError"
@@ -322,4 +324,75 @@ func ifsOnAny(fn *ssa.Function, v ssa.Value) []branch {
 		}
 	}
 	return out
+}
+
+// checkUploaderErrors: each write method of s3Uploader returns a nil error only on a path where the
+// most recent finishing S3 call's error was tested nil (a swallowed NoSuchUpload, a dropped retry
+// error, … would let the HTTP handler answer 200 for an object that was never assembled).
+func checkUploaderErrors(m *Module, r *Report) {
+	table := []struct {
+		method string
+		calls  []string
+	}{
+		{"(*s3Uploader).Upload", []string{"~.PutObject", "~s3Uploader).multipartUpload"}},
+		{"(*s3Uploader).UploadStream", []string{"~.CompleteMultipartUpload", "~.PutObject", "~s3Uploader).Upload"}},
+		{"(*s3Uploader).UploadPart", []string{"~.UploadPart"}},
+		{"(*s3Uploader).CompleteMultipartUpload", []string{"~.CompleteMultipartUpload"}},
+		{"(*s3Uploader).multipartUpload", []string{"~.CompleteMultipartUpload"}},
+	}
+	for _, t := range table {
+		fn := needFn(m, r, "C32.R4", pkgProxy, t.method)
+		if fn == nil {
+			continue
+		}
+		r.fn(fn)
+		g := Guard{cl(atomErrNil(t.calls...)).re(t.calls...)}
+		key := t.method + " returns nil only after its finishing S3 call succeeded"
+		n, why := 0, ""
+		for _, b := range fn.Blocks {
+			ret, ok := b.Instrs[len(b.Instrs)-1].(*ssa.Return)
+			if !ok || len(ret.Results) == 0 {
+				continue
+			}
+			errRes := ret.Results[len(ret.Results)-1]
+			canNil := false
+			for _, o := range origins(errRes) {
+				if isNilConst(o) {
+					canNil = true
+				}
+			}
+			if !canNil {
+				// handing back the finishing call's own error is the other accepted shape
+				pass := len(origins(errRes)) > 0
+				for _, o := range origins(errRes) {
+					var c *ssa.Call
+					switch x := strip(o).(type) {
+					case *ssa.Extract:
+						c, _ = x.Tuple.(*ssa.Call)
+					case *ssa.Call:
+						c = x
+					}
+					if c == nil || !nameMatches(calleeName(&c.Call), t.calls...) {
+						pass = false
+					}
+				}
+				if pass {
+					n++
+				}
+				continue
+			}
+			n++
+			if res := checkGuarded(m, fn, ret, g); !res.OK {
+				why = "success is reported at " + m.Pos(ret.Pos()) + " although the finishing S3 call was not seen to succeed: " + res.String()
+			}
+		}
+		switch {
+		case n == 0:
+			r.unresolved("C32.R4", key, "no success return found")
+		case why != "":
+			r.viol("C32.R4", key, m.Pos(fn.Pos()), why)
+		default:
+			r.ok("C32.R4", key, m.Pos(fn.Pos()), fmt.Sprintf("%d success return(s)", n))
+		}
+	}
 }
